@@ -23,7 +23,7 @@ const BLOCKS: [&str; 16] = [
     "print(1);", "print(1); print(2)", "print(1)", "print(1)", "print(2)", "print(1) print(2)", "return", "return 1", "local z = 1\nprint(z)", "", "-- nothing", "x = y\ny = x",
     "f()\nreturn 1", "do print(1) end", "print(\"a\")", "print('a')",
 ];
-const TARGETS: [&str; 10] = ["a", "b", "t.x", "t.y", "t[i]", "t[f()]", "f().x", "t[1]", "t[\"x\"]", "(a).b"];
+const TARGETS: [&str; 14] = ["a", "b", "t.x", "t.y", "t[i]", "t[f()]", "f().x", "t[1]", "t[\"x\"]", "(a).b", "ab", "t", "item", "items"];
 
 /// the same code with different trivia (never changes the tokens)
 fn respell(r: &mut Rng, s: &str) -> String {
